@@ -34,6 +34,10 @@ pub struct RunOutcome {
 
 /// Executes one simulated cluster run.
 pub fn run_one(cfg: &Cfg, plan: &[Action], opts: &RunOpts) -> RunOutcome {
+    kit::entropy::isolated(cfg.seed, || run_one_inner(cfg, plan, opts))
+}
+
+fn run_one_inner(cfg: &Cfg, plan: &[Action], opts: &RunOpts) -> RunOutcome {
     let sched = Rc::new(match &opts.picks {
         Some(p) => Sched::with_tape(p.clone(), opts.record_picks),
         None => Sched::new(cfg.seed, cfg.policy, opts.record_picks),
